@@ -177,6 +177,8 @@ def record(report, res, pid_prefix, known_reach=("REACH",), classify=None):
     for p in res.props:
         oid = "%s.%s.%s" % (pid_prefix, job.name, p.name)
         if "REACH" in p.desc:
+            if not p.name.startswith(job.harness + "."):
+                continue            # reachability guard of another harness in the same translation unit (unreachable from this entry)
             reach_seen = True
             ok = p.status == "FAILURE"
             report.vacuity.append(dict(job=job.name, guard=p.desc, reachable=ok))
